@@ -29,6 +29,18 @@ pub struct C09;
 const MAX_HEADER_SIZE: u64 = 1_000_000;
 const MAX_FILE_SIZE: u64 = 100_000_000;
 
+/// Is every element of `part` (with multiplicity) in `whole`?
+fn sub_multiset(part: &[u64], whole: &[u64]) -> bool {
+    let mut rest: Vec<u64> = whole.to_vec();
+    part.iter().all(|x| match rest.iter().position(|y| y == x) {
+        Some(i) => {
+            rest.swap_remove(i);
+            true
+        }
+        None => false,
+    })
+}
+
 //------------ Value generation ----------------------------------------------------
 
 /// Characters permitted in URIs besides '/', as per `uri::is_u8_uri_ascii`.
@@ -838,7 +850,10 @@ impl C09 {
         let got = guarded("sort_and_verify_deltas", || Ok(copy.sort_and_verify_deltas(lim)))?;
         let mut retained: Vec<u64> = copy.deltas().iter().map(|d| d.serial()).collect();
         retained.sort();
-        if got != want || (n.deltas().len() > 0 && retained != serials) {
+        // (on success the retained deltas are the newest `limit`; what the list
+        // holds after a reported gap is not specified beyond "nothing invented")
+        let all_serials: Vec<u64> = n.deltas().iter().map(|d| d.serial()).collect();
+        if got != want || (got && n.deltas().len() > 0 && retained != serials) || (!got && !sub_multiset(&retained, &all_serials)) {
             return Err(Violation::new(
                 "delta-chain-check",
                 "",
@@ -877,7 +892,7 @@ impl C09 {
             // (which deltas are retained matters, their order does not)
             let mut retained: Vec<u64> = nf.deltas().iter().map(|d| d.serial()).collect();
             retained.sort();
-            if got != want || (!list.is_empty() && retained != sorted) {
+            if got != want || (got && !list.is_empty() && retained != sorted) || (!got && !sub_multiset(&retained, &list)) {
                 return Err(Violation::new(
                     "delta-chain-check",
                     "",
